@@ -99,6 +99,8 @@ func runC06(r *Run, verifDir string) {
 	for i, s := range probs {
 		r.Unk("C06.M", fmt.Sprintf("probe#%d", i), token.NoPos, "%s", s)
 	}
+	r.Rule("C06.D7", "the attribute decoder stores the typed value on every success exit of a known attribute", 1)
+	attrDecoderSetsValue(r, "C06.D7")
 	opIface, _ := root.Types.Scope().Lookup("OperationPayload").Type().Underlying().(*types.Interface)
 	objIface, _ := root.Types.Scope().Lookup("Object").Type().Underlying().(*types.Interface)
 	if opIface == nil || objIface == nil {
@@ -690,5 +692,89 @@ func c06OpTypeWriters(r *Run) {
 	}
 	if n == 0 {
 		r.Unk("C06.D6", "UnknownPayload.opType/writers", token.NoPos, "no writer of UnknownPayload.opType found")
+	}
+}
+
+// ---------------------------------------------------------------- D7
+
+// attrDecoderSetsValue: in Attribute.TagDecodeTTLV every success exit on which the attribute has a registered (or
+// custom) value type has stored the decoded, typed value into AttributeValue: a return of the nil constant (or of a
+// call result, which may be nil) is dominated by the store, unless it is on the newAttribute(...).IsNil() edge (unknown
+// attribute: the value is skipped and stays nil). The client's unguarded assertions on attribute values (C12.A1) and
+// the "decode to the registered type" clause of C06 both rest on this.
+func attrDecoderSetsValue(r *Run, rule string) {
+	p := r.P
+	fn := p.Func("", "Attribute", "TagDecodeTTLV")
+	key := "kmip.Attribute.TagDecodeTTLV/value-set"
+	if fn == nil {
+		r.Unk(rule, key, token.NoPos, "anchor missing")
+		return
+	}
+	n, bad := 0, token.NoPos
+	why := ""
+	withClosures(fn, func(f *ssa.Function) {
+		if f == fn {
+			return
+		}
+		// the store att.AttributeValue = ...
+		var stores []*ssa.Store
+		allInstrs(f, func(in ssa.Instruction) {
+			if st, ok := in.(*ssa.Store); ok {
+				if _, fld, ok := fieldAddrOf(st.Addr); ok && fld.Name() == "AttributeValue" && typeName(st.Addr.(*ssa.FieldAddr).X.Type()) == "Attribute" {
+					stores = append(stores, st)
+				}
+			}
+		})
+		for _, b := range f.Blocks {
+			ret, ok := b.Instrs[len(b.Instrs)-1].(*ssa.Return)
+			if !ok || len(ret.Results) != 1 {
+				continue
+			}
+			v := ret.Results[0]
+			mayBeNil := true
+			switch x := v.(type) {
+			case *ssa.Const:
+				mayBeNil = x.IsNil()
+			case *ssa.Call:
+				id := callID(&x.Call)
+				mayBeNil = !(id.is("fmt", "", "Errorf") || id.is("errors", "", "New") || id.is(ttlvPath, "", "Errorf"))
+			case *ssa.MakeInterface:
+				mayBeNil = false
+			}
+			// nil unless a dominating test says otherwise
+			for _, dc := range dominatingConds(b) {
+				if bo, ok := dc.cond.(*ssa.BinOp); ok && bo.X == v && isNilConst(bo.Y) && (bo.Op == token.NEQ) == dc.outcome {
+					mayBeNil = false
+				}
+			}
+			if !mayBeNil {
+				continue
+			}
+			n++
+			stored := false
+			for _, st := range stores {
+				if dominatesInstr(st, ret) {
+					stored = true
+				}
+			}
+			unknown := false
+			for _, dc := range dominatingConds(b) {
+				if c, ok := dc.cond.(*ssa.Call); ok && dc.outcome && callID(&c.Call).is("reflect", "Value", "IsNil") {
+					unknown = true
+				}
+			}
+			if !stored && !unknown {
+				bad = ret.Pos()
+				why = "a success exit of the attribute decoder is reached without AttributeValue having been set and outside the unknown-attribute branch"
+			}
+		}
+	})
+	switch {
+	case bad.IsValid():
+		r.Bad(rule, key, bad, "%s: a standard attribute can then be returned with a nil value, which the client's attribute handling asserts to its registered type without a test (panic on a response the decoder accepted)", why)
+	case n == 0:
+		r.Unk(rule, key, fn.Pos(), "no success exit found in the attribute decoder")
+	default:
+		r.OK(rule, key, fn.Pos(), "%d success exit(s): each follows the store of the typed value, or is the unknown-attribute branch", n)
 	}
 }
